@@ -9,6 +9,8 @@
   encoder's on every run (Drv/C08.lean, harness/src/proj_c08.rs, procrun/c08.py).
 -/
 import SlicecVerif.Lemmas.Request
+import SlicecVerif.Lemmas.RequestContent
+import SlicecVerif.Lemmas.RequestFromVal
 
 namespace Slicec.C08
 
@@ -150,14 +152,14 @@ theorem request_decodes (srcs refs : List SliceFileV) (bs args : Bytes) (h : enc
 
 /-! ## the decoded content is the compiled program's -/
 
-/-- What is proved of "the decoded content equals the compiled program": for every compiled program, every
+/-- First layer of "the decoded content equals the compiled program" (kept; superseded by `content_faithful_decoded`): for every compiled program, every
     source/reference split and every argument bytes, the stream decodes (completely, up to the arguments) into the
     untyped image of `(sources, references)`, where the two lists are — in compilation order, split by the source flag —
     the conversions of exactly the transmitted files (all files, minus those without a module declaration), and each
     converted file carries its path as given, its module's identifier and attributes, its file attributes, and in
     `contents` one named symbol per definition, same kind and identifier, in definition order (anonymous-type symbols in
     between). What each symbol says about its definition (members, flags, tags, values, type references, comments) is
-    `convDefs`, tied to slice_file_converter.rs byte for byte by the correspondence — see `content_faithful_full`. -/
+    the subject of `content_read_back` / `content_faithful` below. -/
 theorem content_faithful_partial (mode : DocMode) (fs : List ReqFile) (srcs refs : List SliceFileV) (bs args : Bytes)
     (hc : convert mode fs = some (srcs, refs)) (he : encodeRequest srcs refs = some bs) :
     decodeCall CS "generateCode" 2 (bs ++ args) = .ok (toValRequest srcs refs, args) ∧
@@ -207,26 +209,215 @@ example : paramDoc .asImplemented [] "M::I::op" (some { overview := none, params
     ∧ (paramDoc .asDemanded [] "M::I::op" (some { overview := none, params := [], returns := [(none, [.text "x"])], sees := [] }) true true "returnValue").isSome = true := by
   decide
 
-/-- FULL statement of content faithfulness (not proved as a Lean theorem; established by request_decodes +
-    content_faithful_partial + content_faithful_docs + the byte-exact correspondence of `convert` with the real converter): a
-    description of the program written independently of the converter equals what `fromVal` reads back from the decoded value.
-    What is missing is that independent description (`describe`) for every symbol kind; the former counterexample (D-08a,
-    documentation of return values) is repaired. -/
-def content_faithful_full : Prop :=
-  ∀ (fs : List ReqFile) (srcs refs : List SliceFileV),
-    convert .asImplemented fs = some (srcs, refs) → convert .asDemanded fs = some (srcs, refs)
+/-! ## the decoded content says what the abstract syntax says
 
-/-- FULL statement of `named_ids_exist` (checked on every case by the implementation-side oracle of
-    harness/src/proj_c08.rs; not proved in Lean): every named type id is a primitive keyword or the scoped identifier of a
-    struct / enum / custom-type symbol of some transmitted file, and every base that of an interface symbol. -/
-def named_ids_exist_full : Prop :=
-  ∀ (mode : DocMode) (fs : List ReqFile) (srcs refs : List SliceFileV), convert mode fs = some (srcs, refs) →
-    let entity (kinds : List String) (id : Bytes) : Prop :=
-      ∃ f ∈ srcs ++ refs, ∃ s ∈ f.contents, ∃ k n, s.head = some (k, n) ∧ k ∈ kinds ∧
-        id = f.moduleDeclaration.identifier ++ sb "::" ++ n
+`describe mode fs isSource` (Lemmas/RequestContent.lean) is the description of the request written by direct recursion on
+the abstract syntax, as plain `map`s, WITHOUT the symbol vector the converter threads through `convDefs`: per transmitted
+file the path, the module's identifier and attributes, the file attributes, and per definition in source order its kind,
+entity information (identifier, attributes with arguments, doc comment with resolved links and see-tags) and members —
+fields / operations with parameters and return members / enumerators with their values (explicit or previous + 1 from 0) —
+each member with identifier, attributes, documentation, tag, and its type as a TREE (`RefShape`: names resolved, aliases
+flattened with their attributes accumulated, anonymous types in place, `?`).
+`readFile v` is what a generator gets from a transmitted file `v`: the named symbols in order, every numeric type id replaced
+by the anonymous-type symbol it points to in `v.contents`. -/
+
+/-- **The converted request reads back as the description of the program.** For every list of compiled files, every
+    source/reference split and either reading of the parameter documentation: the source files of the request, read with
+    numeric ids dereferenced, are exactly the descriptions of the files with the source flag that have a module declaration,
+    in compilation order; likewise the reference files. Equality of whole descriptions: nothing is lost, added or
+    reordered, every numeric id points to the anonymous type that was written at that place. No side condition. -/
+theorem content_read_back (mode : DocMode) (fs : List ReqFile) (srcs refs : List SliceFileV)
+    (h : convert mode fs = some (srcs, refs)) :
+    srcs.map readFile = describe mode fs true ∧ refs.map readFile = describe mode fs false :=
+  convert_read mode fs srcs refs h
+
+/-- **Content faithfulness** (replaces the former `content_faithful_full`): for the conversion the current source implements,
+    the byte stream decodes — as a `generateCode` call, field by field according to the schema, leaving exactly the
+    generator's arguments — into the untyped image of two lists of files which, read back with numeric ids dereferenced, are
+    the description of the program's source files and of its reference files; return members are documented by the
+    `@returns` tags (`DocMode.asDemanded`). -/
+theorem content_faithful (fs : List ReqFile) (srcs refs : List SliceFileV) (bs args : Bytes)
+    (hc : convert DocMode.current fs = some (srcs, refs)) (he : encodeRequest srcs refs = some bs) :
+    decodeCall CS "generateCode" 2 (bs ++ args) = .ok (toValRequest srcs refs, args) ∧
+    srcs.map readFile = describe .asDemanded fs true ∧ refs.map readFile = describe .asDemanded fs false := by
+  rw [return_docs_as_demanded] at hc
+  exact ⟨request_roundtrip srcs refs bs args he, convert_read .asDemanded fs srcs refs hc⟩
+
+/-- **Content faithfulness, end to end: `fromVal (decoded request) = describe P`.** `fromValFile` (Lemmas/RequestFromVal.lean)
+    reads the UNTYPED value the schema-driven reader returns for one `SliceFile` — positionally, by the schema's field order
+    and enumerator numbers, a type id string being numeric when it is a non-empty string of decimal digits — and
+    dereferences the numeric ids; it does not use the encoders or `toVal*`. For every program whose references resolve
+    (`AllResolve`, needed only so that no NAME can be mistaken for a number: a named id is then a keyword or contains `::`),
+    every source/reference split and every argument bytes: the stream decodes as a `generateCode` call into two lists of
+    values and exactly the argument bytes, and reading the two lists gives the description of the program's source files
+    and of its reference files. -/
+theorem content_faithful_decoded (fs : List ReqFile) (srcs refs : List SliceFileV) (bs args : Bytes)
+    (hc : convert DocMode.current fs = some (srcs, refs)) (hg : AllResolve fs = true) (he : encodeRequest srcs refs = some bs) :
+    ∃ ss rs : List SVal, decodeCall CS "generateCode" 2 (bs ++ args) = .ok ([.list ss, .list rs], args) ∧
+      optMap fromValFile ss = some (describe .asDemanded fs true) ∧
+      optMap fromValFile rs = some (describe .asDemanded fs false) := by
+  have hr := convert_readable _ fs srcs refs hc hg
+  rw [return_docs_as_demanded] at hc
+  obtain ⟨h1, h2⟩ := convert_read .asDemanded fs srcs refs hc
+  refine ⟨srcs.map toValSliceFile, refs.map toValSliceFile, request_roundtrip srcs refs bs args he, ?_, ?_⟩
+  · rw [fromVal_Files srcs (fun v hv => hr v (List.mem_append_left _ hv)), h1]
+  · rw [fromVal_Files refs (fun v hv => hr v (List.mem_append_right _ hv)), h2]
+
+/-- the reader of the decoded value inverts the untyped image on every file whose named ids do not look numeric, and
+    numeric ids are always read back as the same index -/
+theorem decoded_value_determines_file (v : SliceFileV) (h : FileReadable v) : fromValSliceFile (toValSliceFile v) = some v :=
+  fromVal_SliceFile v h
+
+/-- The type of a member as a tree is the type as written: converting a written type reference (which may push
+    anonymous-type symbols) and reading the result back in the resulting vector gives `shapeOfTRef` — names resolved in the
+    scope they are written in, a name of an alias replaced by the alias's target, anonymous types nested in place. -/
+theorem type_reference_shape (t : Table) (scope : String) (r : TRef) (syms : Syms) (h : SymsOK syms) :
+    readRef (convTRef t scope elabFuel r syms).2 (convTRef t scope elabFuel r syms).1 = shapeOfTRef t scope elabFuel r :=
+  convTRef_shape t scope elabFuel r syms h
+
+/-- …its `?` is the `?` written on it, and its attributes are the attributes written on it followed by those written on
+    the underlying types of the aliases its name goes through, in chain order (`C03.alias_flatten` says what `extra` is). -/
+theorem type_reference_flags (t : Table) (scope : String) (r : TRef) :
+    (shapeOfTRef t scope elabFuel r).opt = r.opt ∧
+    (shapeOfTRef t scope elabFuel r).attrs =
+      convAttrs (r.attrs ++ (match r.ty with
+        | .named id => (match resolveNamed t .type id scope with | .ok (_, extra) => extra | .error _ => [])
+        | _ => [])) :=
+  ⟨shapeOfTRef_opt t scope r, shapeOfTRef_attrs t scope r⟩
+
+/-! ### projections of `content_read_back`, each against an observation written directly on the syntax -/
+
+/-- (i) **Files.** The source/reference split, the order of the files, and per file the path as given, the module's
+    identifier and attributes and the file attributes: sources are exactly the files with the source flag that have a
+    module declaration, in compilation order; references likewise. -/
+theorem files_in_order (mode : DocMode) (fs : List ReqFile) (srcs refs : List SliceFileV)
+    (h : convert mode fs = some (srcs, refs)) :
+    srcs.map SliceFileV.header = obsHeaders fs true ∧ refs.map SliceFileV.header = obsHeaders fs false := by
+  obtain ⟨h1, h2⟩ := convert_read mode fs srcs refs h
+  have e : ∀ l : List SliceFileV, l.map SliceFileV.header = (l.map readFile).map FileD.header := by
+    intro l; rw [List.map_map]; rfl
+  rw [e srcs, e refs, h1, h2]
+  exact ⟨describe_headers mode fs true, describe_headers mode fs false⟩
+
+/-- (ii) **Definitions.** Per transmitted file, the named symbols are the definitions of the file: same kinds, same
+    identifiers, same order (anonymous-type symbols in between do not count). -/
+theorem definitions_in_order (mode : DocMode) (fs : List ReqFile) (srcs refs : List SliceFileV)
+    (h : convert mode fs = some (srcs, refs)) :
+    srcs.map (fun v => v.contents.filterMap SymbolV.head) = obsDefHeads fs true ∧
+    refs.map (fun v => v.contents.filterMap SymbolV.head) = obsDefHeads fs false := by
+  obtain ⟨h1, h2⟩ := convert_read mode fs srcs refs h
+  have e : ∀ l : List SliceFileV, l.map (fun v => v.contents.filterMap SymbolV.head) =
+      (l.map readFile).map (fun d => d.definitions.map DefD.head) := by
+    intro l; rw [List.map_map]
+    exact map_congr_mem _ _ _ (fun v _ => (readFile_heads v).symm)
+  rw [e srcs, e refs, h1, h2]
+  exact ⟨describe_defHeads mode fs true, describe_defHeads mode fs false⟩
+
+/-- (iii) (iv) **Members, flags, tags, values.** Per definition, in order: a struct's `compact` flag and its fields; an
+    interface's bases (scoped identifiers of the interfaces the written names resolve to) and operations with `idempotent`,
+    parameters, return members (a single unnamed return value is the member `returnValue`) and the two `stream` flags; an
+    enum's `unchecked` / `compact` flags, underlying type, and enumerators with their values — the written literal, else the
+    previous value + 1, starting from 0 (`enumerator_values`) — as absolute value and sign, or as discriminant, with the
+    enumerator's fields. Every member with its identifier, its tag (`tag_as_written`) and the `?` of its type. -/
+theorem members_in_order (mode : DocMode) (fs : List ReqFile) (srcs refs : List SliceFileV)
+    (h : convert mode fs = some (srcs, refs)) :
+    (srcs.map readFile).map (fun d => d.definitions.map DefD.obs) = obsDefs fs true ∧
+    (refs.map readFile).map (fun d => d.definitions.map DefD.obs) = obsDefs fs false := by
+  obtain ⟨h1, h2⟩ := convert_read mode fs srcs refs h
+  rw [h1, h2]
+  exact ⟨describe_defObs mode fs true, describe_defObs mode fs false⟩
+
+/-- (v) (vi) **Attributes and documentation of definitions.** Per definition, in order: the identifier, the attributes in
+    order with their arguments (`attribute_verbatim`), and the doc comment when the definition has a well-formed one —
+    the overview with every `{@link X}` replaced by the scoped identifier `X` resolves to from the definition, the `@see`
+    tags likewise (`convDoc`, `convLink`). Members carry theirs the same way (`describe`: `descField`, `descParam`,
+    `descOp`, `descVariant`, `descEnumerator`); parameters and return members are documented by `paramDoc`. -/
+theorem definition_infos_in_order (mode : DocMode) (fs : List ReqFile) (srcs refs : List SliceFileV)
+    (h : convert mode fs = some (srcs, refs)) :
+    (srcs.map readFile).map (fun d => d.definitions.map DefD.info) = obsDefInfos fs true ∧
+    (refs.map readFile).map (fun d => d.definitions.map DefD.info) = obsDefInfos fs false := by
+  obtain ⟨h1, h2⟩ := convert_read mode fs srcs refs h
+  rw [h1, h2]
+  exact ⟨describe_defInfos mode fs true, describe_defInfos mode fs false⟩
+
+/-- (vi) **Documentation of parameters and return values.** The documentation of a parameter is the text of the first
+    `@param` tag with its identifier; that of a return member the text of the first `@returns` tag with its identifier — or
+    without identifier when the operation has a single return value —, with the links resolved from the operation; no such
+    tag, or no well-formed comment on the operation: no documentation. (`describe` uses `paramDoc` for these members.) -/
+theorem parameter_documentation (t : Table) (opKey : String) (d : ReqDoc.ParsedDoc) (single : Bool) (name : String) :
+    paramDoc .asDemanded t opKey (some d) false single name =
+      (d.params.find? (fun p => p.1 == name)).map (fun p => { overview := convMsg t opKey p.2, seeTags := [] }) ∧
+    paramDoc .asDemanded t opKey (some d) true single name =
+      (d.returns.find? (fun r => r.1 == some name || (single && r.1 == none))).map
+        (fun r => { overview := convMsg t opKey r.2, seeTags := [] }) ∧
+    paramDoc .asDemanded t opKey none false single name = none ∧ paramDoc .asDemanded t opKey none true single name = none :=
+  paramDoc_spec t opKey d single name
+
+/-- (iv) The value of the enumerator at position `i`: its literal when it has one; otherwise 0 for the first enumerator and
+    the value of the enumerator before it plus one (wrapping in `i128`, as the compiler computes it) for the others. -/
+theorem enumerator_values (es : List Enumerator) (i : Nat) (e : Enumerator) (he : es[i]? = some e) :
+    (enumValues none es)[i]? = some (match e.value with
+      | some l => l.value
+      | none => if i = 0 then 0 else wrapI128 ((enumValues none es)[i - 1]?.getD 0)) :=
+  enumValues_spec es i e he
+
+/-- …and the transmitted pair (absolute value, sign) gives the value back, for every value an enumerator of an integral
+    underlying type can have (|v| < 2^64). -/
+theorem enumerator_value_decodes (v : Int) (h : v.natAbs < 2 ^ 64) :
+    (if decide (v < 0) then -(((v.natAbs % 2 ^ 64 : Nat) : Int)) else ((v.natAbs % 2 ^ 64 : Nat) : Int)) = v :=
+  enumerator_value_read_back v h
+
+/-- (iii) A tag in the range the compiler accepts (0 … 2^31−1) is transmitted as written. -/
+theorem tag_as_written (l : IntLit) (h0 : 0 ≤ l.value) (h1 : l.value < 2 ^ 31) : tagI32 l = l.value :=
+  tagI32_in_range l h0 h1
+
+/-- (v) An attribute other than the four the compiler parses itself is transmitted verbatim: the directive and the
+    arguments in order; `deprecated` keeps its message, `oneway` has no arguments, `compress` / `slicedFormat` keep which of
+    `Args`, `Return` were given. -/
+theorem attribute_verbatim (a : Attr) :
+    (a.directive ≠ "compress" ∧ a.directive ≠ "slicedFormat" ∧ a.directive ≠ "deprecated" ∧ a.directive ≠ "oneway" →
+      convAttr a = ⟨sb a.directive, a.args.map sb⟩) ∧
+    (a.directive = "deprecated" → convAttr a = ⟨sb a.directive, (a.args.take 1).map sb⟩) ∧
+    (a.directive = "oneway" → convAttr a = ⟨sb a.directive, []⟩) ∧
+    (a.directive = "compress" ∨ a.directive = "slicedFormat" → convAttr a = ⟨sb a.directive,
+      ((if a.args.contains "Args" then ["Args"] else []) ++ (if a.args.contains "Return" then ["Return"] else [])).map sb⟩) :=
+  ⟨convAttr_verbatim a, (convAttr_builtin a).1, (convAttr_builtin a).2.1, (convAttr_builtin a).2.2⟩
+
+/-! ## named type ids and bases name entities of transmitted files -/
+
+/-- **Every named type id and every base names an entity that exists in some transmitted file.** For every conversion
+    result of a program in which every written reference resolves (`AllResolve`, decidable: no definition outside a module,
+    no empty module path, every written type name resolves — directly or through aliases — to a type and every base to an
+    interface, within the descent bound; this is what "compiled without E033 / E017 / E019 / a missing module" gives the
+    converter): every NAMED type id occurring in a symbol of a transmitted file (types of fields, parameters, return
+    members, enumerator fields, the target of a type alias, the element types of the anonymous-type symbols) is a primitive
+    keyword or `module ++ "::" ++ identifier` of a struct / enum / custom-type symbol of some transmitted file — never of a
+    type alias: a reference naming an alias carries the id of the alias's target — and every base of an interface symbol
+    is `module ++ "::" ++ identifier` of an interface symbol of some transmitted file. -/
+theorem named_ids_exist (mode : DocMode) (fs : List ReqFile) (srcs refs : List SliceFileV)
+    (h : convert mode fs = some (srcs, refs)) (hg : AllResolve fs = true) :
     ∀ f ∈ srcs ++ refs, ∀ s ∈ f.contents,
-      (∀ r ∈ s.trefs, ∀ id, r.typeId = .named id → (∃ p ∈ Prim.all, id = sb p.kw) ∨ entity ["struct", "enum", "custom"] id) ∧
-      (∀ v, s = .interface v → ∀ b ∈ v.bases, entity ["interface"] b)
+      (∀ r ∈ s.trefs, ∀ id, r.typeId = .named id →
+        (∃ p ∈ Prim.all, id = sb p.kw) ∨ EntityIn (srcs ++ refs) ["struct", "enum", "custom"] id) ∧
+      (∀ v, s = .interface v → ∀ b ∈ v.bases, EntityIn (srcs ++ refs) ["interface"] b) :=
+  named_ids_exist_all mode fs srcs refs h hg
+
+/-- **Every resolved link names an entity declared in a transmitted file.** Every link a transmitted doc comment carries
+    (overview components, `@see` tags, the texts of `@param` / `@returns`) is `convLink t key id` for the written identifier
+    `id` and the scoped identifier `key` of the commented entity. When `id` resolves from there to something other than a
+    module, a parameter or a primitive, what is transmitted is the scoped identifier of the entity it resolves to, and that
+    entity — a definition, a field, an operation, an enumerator or an enumerator's field — is declared in a file that is
+    transmitted (`AllResolve`: no definition outside a module); otherwise the link is transmitted as written. -/
+theorem resolved_links_exist (fs : List ReqFile) (hg : AllResolve fs = true) (selfKey id : String) :
+    (∀ n, findNodeWithScope (buildTable (programOf fs)) id selfKey = some n →
+      n.kind ≠ .module ∧ n.kind ≠ .parameter ∧ n.kind ≠ .primitive →
+      convLink (buildTable (programOf fs)) selfKey id = sb n.key ∧
+      ∃ rf ∈ transmitted fs, EntityOf rf.file n.key n.kind n.ident) ∧
+    ((findNodeWithScope (buildTable (programOf fs)) id selfKey = none ∨
+      ∃ n, findNodeWithScope (buildTable (programOf fs)) id selfKey = some n ∧
+        (n.kind = .module ∨ n.kind = .parameter ∨ n.kind = .primitive)) →
+      convLink (buildTable (programOf fs)) selfKey id = sb id) :=
+  ⟨fun n hf hk => resolved_link_entity fs hg selfKey id n hf hk, unresolved_link_verbatim _ selfKey id⟩
 
 /-! ## non-vacuity -/
 
@@ -245,6 +436,65 @@ example : (match decodeBySchema CS "Attribute" [4, 97, 4, 4, 98, 252, 7] with
     | .ok (.struct [.str d, .list [.str a]], rest) => d == [97] && a == [98] && rest == [7]
     | _ => false) = true := by decide
 example : camelCase "has_streamed_parameter" = "hasStreamedParameter" := by decide
+
+/-! ### on a two-file program (Lemmas/RequestContent.lean, `C08Demo`)
+
+`a.slice` (source): `[[cs::ns("X")]] module M  compact struct S { x: bool }  typealias A = [cs::t] Sequence<S?>`;
+`b.slice` (reference): `module N`, `/// Holds {@link M::S}.` `/// @see M::S` `struct T { y: tag(3) [cs::u] M::A? }`,
+`unchecked enum E { P, Q(w: M::S) = 5, R }`. -/
+
+/-- every written reference resolves: the guard of `named_ids_exist` holds -/
+example : AllResolve C08Demo.files = true := C08Demo.files_resolve
+
+/-- the conversion: in the reference file the anonymous `Sequence<M::S?>` the alias stands for is symbol 0, and `T::y` refers
+    to it by the numeric id 0 with both attributes (`cs::u` written on the field's type, `cs::t` on the alias's) -/
+example : convert DocMode.current C08Demo.files = some ([C08Demo.convertedA], [C08Demo.convertedB]) := by
+  rw [return_docs_as_demanded]; exact C08Demo.convert_files
+
+/-- the description of the reference file, written from the syntax: the doc comment with its link and see-tag resolved, the
+    tagged optional field whose type is the flattened alias as a tree, the variant enum with values 0, 5, 6 -/
+example : describe .asDemanded C08Demo.files false = [C08Demo.describedB] := C08Demo.describe_refs
+
+/-- …and `content_read_back` on it: the converted reference file reads back as that description -/
+example : [C08Demo.convertedB].map readFile = [C08Demo.describedB] := by
+  rw [← C08Demo.describe_refs]
+  exact (content_read_back .asDemanded C08Demo.files _ _ C08Demo.convert_files).2
+
+/-- …and from the untyped value a schema-driven reader gets for that file -/
+example : optMap fromValFile [toValSliceFile C08Demo.convertedB] = some [C08Demo.describedB] := by
+  have hr := convert_readable .asDemanded C08Demo.files _ _ C08Demo.convert_files C08Demo.files_resolve
+  have h := fromVal_Files [C08Demo.convertedB] (fun v hv => hr v (by simp at hv ⊢; exact Or.inr hv))
+  rw [← C08Demo.describe_refs, ← (content_read_back .asDemanded C08Demo.files _ _ C08Demo.convert_files).2]
+  exact h
+
+/-- `named_ids_exist` applies: e.g. the element type of symbol 0 of the reference file is `M::S`, a struct symbol of the
+    source file -/
+example : EntityIn ([C08Demo.convertedA] ++ [C08Demo.convertedB]) ["struct", "enum", "custom"] (sb "M::S") := by
+  have h := named_ids_exist .asDemanded C08Demo.files _ _ C08Demo.convert_files C08Demo.files_resolve
+    C08Demo.convertedB (by simp) (.sequenceType ⟨⟨.named (sb "M::S"), true, []⟩⟩) (by simp [C08Demo.convertedB])
+  rcases h.1 ⟨.named (sb "M::S"), true, []⟩ (by simp [SymbolV.trefs]) (sb "M::S") rfl with ⟨p, _, hp⟩ | h
+  · exfalso; revert p; simp only [C08Demo.sb_eq_data]; decide
+  · exact h
+
+/-- **the guard is needed (1).** `module M  struct S { x: Nope }`: the converter produces a request in which the type id of
+    `x` is the unresolved name as written — neither a keyword nor an entity of a transmitted file. (`AllResolve` is false.) -/
+example : AllResolve C08Demo.bad1 = false ∧ ∃ srcs refs, convert DocMode.current C08Demo.bad1 = some (srcs, refs) ∧
+    ∃ f ∈ srcs ++ refs, ∃ s ∈ f.contents, ∃ r ∈ s.trefs, ∃ id, r.typeId = .named id ∧
+      ¬ ((∃ p ∈ Prim.all, id = sb p.kw) ∨ EntityIn (srcs ++ refs) ["struct", "enum", "custom"] id) :=
+  ⟨C08Demo.bad1_not_resolved, C08Demo.bad1_dangling _⟩
+
+/-- **the guard is needed (2).** `custom C` in a file without module declaration, used by `module M  struct S { x: C }`: the
+    name resolves, but the defining file is not transmitted (when module-less files are skipped), so the id `C` names nothing
+    the generator can see. -/
+example (hs : Gen.requestSkipsModuleless = true) :
+    AllResolve C08Demo.bad2 = false ∧ ∃ srcs refs, convert DocMode.current C08Demo.bad2 = some (srcs, refs) ∧
+    ∃ f ∈ srcs ++ refs, ∃ s ∈ f.contents, ∃ r ∈ s.trefs, ∃ id, r.typeId = .named id ∧
+      ¬ ((∃ p ∈ Prim.all, id = sb p.kw) ∨ EntityIn (srcs ++ refs) ["struct", "enum", "custom"] id) :=
+  ⟨C08Demo.bad2_not_resolved, C08Demo.bad2_dangling _ hs⟩
+
+/-- implicit enumerator values: `P, Q = 5, R` are 0, 5, 6 -/
+example : enumValues none [⟨[], [], "P", none, none⟩, ⟨[], [], "Q", none, some ⟨false, 10, 5, false⟩⟩, ⟨[], [], "R", none, none⟩] =
+    [0, 5, 6] := by decide
 
 end Slicec.C08
 
@@ -268,3 +518,20 @@ end Slicec.C08
 #print axioms Slicec.C08.return_docs_as_demanded
 #print axioms Slicec.C08.content_faithful_docs
 #print axioms Slicec.C08.toValAttribute_injective
+#print axioms Slicec.C08.content_read_back
+#print axioms Slicec.C08.content_faithful
+#print axioms Slicec.C08.content_faithful_decoded
+#print axioms Slicec.C08.decoded_value_determines_file
+#print axioms Slicec.C08.type_reference_shape
+#print axioms Slicec.C08.type_reference_flags
+#print axioms Slicec.C08.files_in_order
+#print axioms Slicec.C08.definitions_in_order
+#print axioms Slicec.C08.members_in_order
+#print axioms Slicec.C08.definition_infos_in_order
+#print axioms Slicec.C08.parameter_documentation
+#print axioms Slicec.C08.enumerator_values
+#print axioms Slicec.C08.enumerator_value_decodes
+#print axioms Slicec.C08.tag_as_written
+#print axioms Slicec.C08.attribute_verbatim
+#print axioms Slicec.C08.named_ids_exist
+#print axioms Slicec.C08.resolved_links_exist
